@@ -19,7 +19,7 @@ RULE = ('histories of sets/gets/incrs/touches/pops with skewed read patterns ove
         'with limit/shards. evaluations = calls judged; distinct_nontrivial = distinct (policy, cull_limit, container, '
         'evicting operation, evicted count) cells')
 DISTINCT = ('evict_cells',)
-REQUIRED = ('calls_judged', 'evicting_writes_lrs', 'evicting_writes_lru', 'evicting_writes_lfu', 'writes_below_limit',
+REQUIRED = ('non_ascii_text_values', 'calls_judged', 'evicting_writes_lrs', 'evicting_writes_lru', 'evicting_writes_lfu', 'writes_below_limit',
             'policy_none_histories', 'cull_limit_zero_histories', 'explicit_culls_evicting', 'fanout_histories',
             'expired_and_policy_mixed', 'container_doors_checked')
 ASSUMPTIONS = ('LRU key = last set/add/incr/get-hit; LRS key = last set/add/incr; LFU key = reads since last store '
@@ -128,7 +128,9 @@ class Monitor:
 
 
 def drv_row_size(drv, it):
-    return len(it.value) if isinstance(it.value, (str, bytes)) else 64
+    if isinstance(it.value, str):
+        return len(it.value.encode('utf-8'))
+    return len(it.value) if isinstance(it.value, bytes) else 64
 
 
 def history(dc, sc, res, rng, kind, cfg, label):
@@ -143,8 +145,12 @@ def history(dc, sc, res, rng, kind, cfg, label):
 
     def val():
         r = rng.random()
-        if r < 0.65:
+        if r < 0.45:
             return 'F' * rng.randrange(1000, 30000)
+        if r < 0.65:
+            # text that takes two to four bytes per character where it is stored: what counts against the limit is bytes
+            res.count('non_ascii_text_values')
+            return rng.choice(['\xe9', '\u20ac', '\U0001F600']) * rng.randrange(500, 12000)
         if r < 0.8:
             return b'B' * rng.randrange(300, 9000)
         return rng.randrange(100)
